@@ -10,11 +10,43 @@ from . import gen
 KDIR = os.path.join(gen.VERIF, 'kani')
 
 
+def _kdir():
+    """the harness crate; when a scratch worktree is being checked (VX_REPO), a copy of it that depends on that tree"""
+    if gen.REPO == '/repo':
+        return KDIR
+    d = os.path.join(gen.OUT, 'kani')
+    os.makedirs(os.path.join(d, 'src'), exist_ok=True)
+    os.makedirs(os.path.join(d, '.cargo'), exist_ok=True)
+    open(os.path.join(d, 'Cargo.toml'), 'w').write(open(os.path.join(KDIR, 'Cargo.toml')).read().replace('"/repo"', '"%s"' % gen.REPO))
+    open(os.path.join(d, '.cargo', 'config.toml'), 'w').write(open(os.path.join(KDIR, '.cargo', 'config.toml')).read().replace('/verif/work/kani-target', os.path.join(gen.OUT, 'kani-target')))
+    shutil.copyfile(os.path.join(KDIR, 'src', 'lib.rs'), os.path.join(d, 'src', 'lib.rs'))
+    return d
+
+
+def counterexample(name, unwind=12, timeout=600):
+    """Re-runs a FAILED harness with Kani's concrete playback and returns the printed unit test (the failing input as
+    concrete bytes for every kani::any() of the harness), or None."""
+    kd = _kdir()
+    cmd = ['cargo', 'kani', '-Z', 'function-contracts', '-Z', 'stubbing', '-Z', 'concrete-playback', '--concrete-playback=print',
+           '--default-unwind', str(unwind), '--harness', name]
+    env = dict(os.environ)
+    env['CARGO_NET_OFFLINE'] = 'true'
+    env['RUSTFLAGS'] = (env.get('RUSTFLAGS', '') + ' --cfg bsv_verif').strip()
+    try:
+        p = subprocess.run(cmd, cwd=kd, env=env, stdout=subprocess.PIPE, stderr=subprocess.STDOUT, text=True, timeout=timeout)
+    except subprocess.TimeoutExpired:
+        return None
+    m = re.search(r'Concrete playback unit test for `[^`]*`:\s*```\s*(.*?)```', p.stdout, re.S)
+    return m.group(1).strip() if m else None
+
+
 def run_harnesses(names, unwind=12, timeout=900):
     """Returns dict name -> {status: ok|failed|undecided, checks, failed_checks, seconds, failed_desc, raw}"""
     if not names:
         return {}, ''
-    shutil.copyfile(os.path.join(gen.REPO, 'Cargo.lock'), os.path.join(KDIR, 'Cargo.lock'))
+    kd = _kdir()
+    lock = os.path.join(gen.REPO, 'Cargo.lock')
+    shutil.copyfile(lock if os.path.exists(lock) else '/repo/Cargo.lock', os.path.join(kd, 'Cargo.lock'))
     cmd = ['cargo', 'kani', '-Z', 'function-contracts', '-Z', 'stubbing', '--default-unwind', str(unwind)]
     for n in names:
         cmd += ['--harness', n]
@@ -23,7 +55,7 @@ def run_harnesses(names, unwind=12, timeout=900):
     env['RUSTFLAGS'] = (env.get('RUSTFLAGS', '') + ' --cfg bsv_verif').strip()
     t0 = time.time()
     try:
-        p = subprocess.run(cmd, cwd=KDIR, env=env, stdout=subprocess.PIPE, stderr=subprocess.STDOUT, text=True, timeout=timeout)
+        p = subprocess.run(cmd, cwd=kd, env=env, stdout=subprocess.PIPE, stderr=subprocess.STDOUT, text=True, timeout=timeout)
         out = p.stdout
     except subprocess.TimeoutExpired as e:
         out = (e.stdout or b'').decode() if isinstance(e.stdout, bytes) else (e.stdout or '')
